@@ -5,3 +5,8 @@ import FhVerif.Props.C26
 import FhVerif.Props.C24
 import FhVerif.Props.C28
 import FhVerif.Props.C29
+import FhVerif.Props.C23
+import FhVerif.Props.C40
+import FhVerif.Props.C33
+import FhVerif.Props.C06
+import FhVerif.Props.C01
